@@ -166,7 +166,7 @@ pub fn run(case: &serde_json::Value, out: &mut String) {
                     },
                 },
                 // vehicle arguments >= 2000 pick among the real vehicles, >= 1000 among the dummy tours, else among all
-                "fit" | "override" => match (pick3(&all, &real, &dummies, &op[1]), pick3(&all, &real, &dummies, &op[4])) {
+                "fit" | "override" => match (pick4(&s, &all, &real, &dummies, &op[1]), pick4(&s, &all, &real, &dummies, &op[4])) {
                     (Some(p), Some(r)) if segment_at(&s, p, &op[2], &op[3]).is_some() => {
                         let (a, b) = segment_at(&s, p, &op[2], &op[3]).unwrap();
                         desc = format!("{} {} {} {}", vid(p), nid(a), nid(b), vid(r));
